@@ -64,6 +64,34 @@ def uses_var(body):
     return ("'La'" in s) or ("'Lb'" in s) or ("'cLa'" in s)
 
 
+def _always_exits(s):
+    k = s[0]
+    if k in ("ret", "break", "cont"):
+        return True
+    if k in ("ifelse", "cond2"):
+        return _always_exits_seq(s[2]) and _always_exits_seq(s[3])
+    return False
+
+
+def _always_exits_seq(body):
+    return any(_always_exits(s) for s in body)
+
+
+def has_dead_code(body):
+    """a statement that follows one which always leaves (Return / Break / Continue, or a two-armed conditional both
+    of whose arms leave)"""
+    for i, s in enumerate(body):
+        if _always_exits(s) and i < len(body) - 1:
+            return True
+        k = s[0]
+        subs = {"if": [s[2]] if k == "if" else [], "ifelse": [s[2], s[3]] if k == "ifelse" else [],
+                "cond2": [s[2], s[3]] if k == "cond2" else [], "while": [s[2]] if k == "while" else [],
+                "for": [s[1]] if k == "for" else []}.get(k, [])
+        if any(has_dead_code(b) for b in subs):
+            return True
+    return False
+
+
 # ------------------------------------------------------------------ recipe terms
 def cond_term(c):
     if c == "c1":
